@@ -50,6 +50,9 @@ def requests(ctx, side, codes):
             if k < 0: continue
             for a in ages:
                 out.append((row.gender, row.event, k, a, False, k / 100.0))
+        for k in rng.sample(range(0, km + 1, 100), min(12 if quick else 60, len(range(0, km + 1, 100)))):
+            for a in ages:
+                out.append((row.gender, row.event, k, a, False, k // 100))      # int form with an age
         if not quick:
             # whole grid for two seed-chosen masters bands
             for a in rng.sample([35, 40, 45, 50, 55, 60, 65, 70, 75, 80], 2):
@@ -70,6 +73,12 @@ def requests(ctx, side, codes):
                 if age is None: continue
                 for k in cand:
                     out.append((row.gender, row.event, k, age + rng.randrange(0, 5), False, k / 100.0))
+                # the same hazard with the mark handed over as an int (whole metres / seconds)
+                lcm100 = step * 100 // _m.gcd(step, 100)
+                candw = list(range(lcm100, km + 1, lcm100))
+                if len(candw) > 40: candw = rng.sample(candw, 40)
+                for k in candw:
+                    out.append((row.gender, row.event, k, age + rng.randrange(0, 5), False, k // 100))
         else_k = [k for k in aks if k >= 0][:12]
         if row.key() != 'M-800':
             # the English Schools option concerns the boys' 800 m only: every other row scores as without it
